@@ -33,6 +33,12 @@ def run(ctx: Ctx) -> None:
         f = prog.func(mod, qn)
         subs = [n for n in walk_no_nested(f.node) if isinstance(n, ast.Subscript) and isinstance(n.value, ast.Attribute) and n.value.attr in ('iloc', 'loc', 'iat', 'at')]
         sel = [n for n in subs if unparse(n.value.value) in ('self.data', 'self.individualMap')]
+        other = [n for n in subs if unparse(n.value.value).startswith('self.') and n not in sel]
+        if not sel and other:
+            fr = unparse(other[0].value.value)
+            ctx.add('C13.R1', f'{qn}:selection', False, (f.file, other[0].lineno), f'{qn} takes its rows from {fr}, not from self.data: self.data is the table that remove(), add_column(), scale_column() and the sorting done '
+                    f'for panel data keep current, {fr} is not kept in step with it - rows that were removed can come back and added columns are missing', fr, positive=True)
+            continue
         if not sel:
             plain = [n for n in walk_no_nested(f.node) if isinstance(n, ast.Subscript) and unparse(n.value) in ('self.data', 'self.individualMap')]
             ctx.add('C13.R1', f'{qn}:selection', False, f, f'{qn} no longer selects rows with an indexer ({[unparse(p)[:40] for p in plain]})', 'no indexer')
